@@ -1,13 +1,170 @@
 /-
-  Driver command `sim`: see DESIGN.md.
+  Driver command `sim`: replay every run of a simulator case through the model with the logged
+  oracle, compare the event lists exactly, print the coverage signature and run the property
+  monitors on the implementation's traces.
 -/
-import Driver.Parse
+import Driver.FwRun
+import Driver.SimMonitors
 
 namespace Driver.SimRun
-open Mb Driver
+open Mb Mb.Sim Driver
 
-/-- run the `sim` command over the parsed case blocks; `args` are the extra command-line words -/
-def run (_cases : List CaseBlock) (_args : List String) : IO Unit := do
-  IO.println "sim: not implemented"
+def parseMachineHex (h : String) : Except String Machine :=
+  match hexBytes h with
+  | some bs => match Codec.decodeMachine bs with
+    | some m => pure m
+    | none => throw "machine bytes do not decode in the model"
+  | none => throw "bad hex"
+
+def parseTraceItem (w : String) : Option TraceLine :=
+  match w.splitOn ":" with
+  | [t, "s"] => t.toNat?.map (·, true)
+  | [t, "r"] => t.toNat?.map (·, false)
+  | _ => none
+
+def parseOptNat (s : String) : Option (Option Nat) :=
+  if s == "-" then some none else s.toNat?.map some
+
+def parseF64 (s : String) : Option F64 := (hexNat s).map UInt64.ofNat
+
+def parseRunLine (ws : List String) : Option RunIn :=
+  match ws with
+  | ["run", name, api, pps, mtl, msi, cont, oc, on, fpc, fbc, fps, fbs, seed] => do
+    let pps ← parseOptNat pps
+    let seed ← parseOptNat seed
+    some { name := name, adv := api == "adv", pps := pps, seed := seed,
+           args := { network := ⟨0, pps⟩, maxTraceLength := ← mtl.toNat?, maxSimIterations := ← msi.toNat?,
+                     continueAfterAllNormal := ← parseBool cont, onlyClientEvents := ← parseBool oc,
+                     onlyNetworkActivity := ← parseBool on, fpClient := ← parseF64 fpc, fbClient := ← parseF64 fbc,
+                     fpServer := ← parseF64 fps, fbServer := ← parseF64 fbs } }
+  | _ => none
+
+def parseObsEvent (ws : List String) : Option SimEvent :=
+  match ws with
+  | [t, side, ev, pad, b, r] => do
+    some { event := ← parseEv ev, time := ← t.toInt?, client := side == "c",
+           containsPadding := ← parseBool pad, bypass := ← parseBool b, replace := ← parseBool r }
+  | _ => none
+
+def parseRes (outs : List (List String)) : Option RunRes :=
+  match outs with
+  | ("res" :: "ok" :: _) :: evs => (evs.mapM parseObsEvent).map .ok
+  | ("res" :: "panic" :: cls) :: _ => some (.panic (String.intercalate " " cls))
+  | _ => none
+
+structure ParsedCase where
+  input : CaseIn
+  runs : List (ObsRun × OState)
+
+def parseCase (c : CaseBlock) : Except String ParsedCase := do
+  let mut mc : List Machine := []
+  let mut ms : List Machine := []
+  let mut trace : List TraceLine := []
+  let mut delay : Nat := 0
+  for ws in c.header do
+    match ws with
+    | ["mc", h] => mc := mc ++ [← parseMachineHex h]
+    | ["ms", h] => ms := ms ++ [← parseMachineHex h]
+    | "tr" :: _ :: items =>
+      match items.mapM parseTraceItem with
+      | some t => trace := t
+      | none => throw "bad trace"
+    | ["delay", d] =>
+      match d.toNat? with
+      | some d => delay := d
+      | none => throw "bad delay"
+    | _ => throw s!"unexpected header line {ws}"
+  let mut runs : List (ObsRun × OState) := []
+  for op in c.ops do
+    let some r := parseRunLine op.cmd | throw "bad run line"
+    let some res := parseRes op.outs | throw "bad result lines"
+    runs := runs ++ [(⟨r, res⟩, { us := op.us, ds := op.ds, starved := false })]
+  return { input := { mc := mc, ms := ms, trace := trace, delay := delay }, runs := runs }
+
+/-- first index where two lists differ -/
+def firstDiff {α} [BEq α] : List α → List α → Nat → Option Nat
+  | [], [], _ => none
+  | a :: as, b :: bs, i => if a == b then firstDiff as bs (i + 1) else some i
+  | _, _, i => some i
+
+/-- compare an implementation result with the model's -/
+def diffRes (impl model : RunRes) : Option (String × Nat) :=
+  match impl, model with
+  | .ok a, .ok b =>
+    match firstDiff a b 0 with
+    | none => none
+    | some i => some (if a.length != b.length && i ≥ min a.length b.length then "len" else "events", i)
+  | .panic a, .panic b => if a == b then none else some (s!"panic:{a}/{b}", 0)
+  | .panic a, .ok _ => some (s!"impl-panic:{a}", 0)
+  | .ok _, .panic b => some (s!"model-fault:{b}", 0)
+
+def modelBudget : Nat := 200000
+
+/-- coverage features of one run (model internals + the implementation's trace) -/
+def runSig (r : ObsRun) (o : SimOut OState) : List String :=
+  let f (b : Bool) (s : String) : List String := if b then [s] else []
+  let evs := o.stream.map (·.ev)
+  let acts := o.stream.flatMap (·.acts)
+  let g := match o.final with
+    | some st => st.net.ghost
+    | none => {}
+  f (evs.any fun e => match e.event with | .paddingSent _ => true | _ => false) "pad" ++
+  f (evs.any fun e => match e.event with | .blockingBegin _ => true | _ => false) "blk" ++
+  f (evs.any fun e => e.event == .blockingEnd) "blkend" ++
+  f (evs.any fun e => e.event == .tunnelSent && e.bypass) "bypass" ++
+  f (evs.any fun e => match e.event with | .paddingSent _ => e.replace | _ => false) "replace" ++
+  f (g.replaced > 0) "repl-hit" ++ f (g.replacedBypass > 0) "repl-bypass-hit" ++
+  f (evs.any fun e => match e.event with | .timerBegin _ => true | _ => false) "timer" ++
+  f (evs.any fun e => match e.event with | .timerEnd _ => true | _ => false) "timerend" ++
+  f (acts.any fun a => match a with | .cancel _ .action => true | _ => false) "cancelA" ++
+  f (acts.any fun a => match a with | .cancel _ .internal => true | _ => false) "cancelI" ++
+  f (acts.any fun a => match a with | .cancel _ .all => true | _ => false) "cancelL" ++
+  f (acts.any fun a => match a with | .updateTimer _ true _ => true | _ => false) "timerR" ++
+  f (acts.any fun a => match a with | .updateTimer 0 _ _ => true | _ => false) "timer0" ++
+  f (acts.any fun a => match a with | .blockOutgoing _ 0 _ _ _ => true | _ => false) "blk0" ++
+  f (acts.any fun a => match a with | .blockOutgoing _ _ _ true _ => true | _ => false) "blkR" ++
+  f (acts.any fun a => match a with | .blockOutgoing _ _ true _ _ => true | _ => false) "blkB" ++
+  f (g.aggPushed > 0) "agg" ++ f (g.aggPopped > 0) "aggpop" ++ f (g.ppsHit > 0) "pps" ++
+  f (g.movedByBlocking > 0) "moved" ++
+  f (o.stop == .maxTrace) "stopLen" ++ f (o.stop == .maxIter) "stopIter" ++ f (o.stop == .noNormal) "stopNormal" ++
+  f (o.stop == .queueEmpty) "stopEmpty" ++
+  f (match o.stop with | .fault _ => true | _ => false) "panic" ++
+  f r.run.args.onlyClientEvents "fC" ++ f r.run.args.onlyNetworkActivity "fN" ++
+  f (!r.run.adv) "apiSim"
+
+def dedup (l : List String) : List String :=
+  l.foldl (fun acc s => if acc.contains s then acc else acc ++ [s]) []
+
+def run (cases : List CaseBlock) (_args : List String) : IO Unit := do
+  for c in cases do
+    match parseCase c with
+    | .error e => IO.println s!"case {c.id} {c.kind} PARSE {e}"
+    | .ok p =>
+      let mut diffs : List String := []
+      let mut sigs : List String := [s!"c{p.input.mc.length}s{p.input.ms.length}"]
+      let mut nev := 0
+      let mut models : List (ObsRun × SimOut OState × Int) := []
+      for (r, orc) in p.runs do
+        let (o, t0) := Mb.Sim.modelRun replayOracle modelBudget p.input r.run orc
+        let mres := o.res t0
+        match diffRes r.res mres with
+        | some (what, i) => diffs := diffs ++ [s!"{r.run.name}:{what} first={i}"]
+        | none =>
+          -- the oracle must be consumed exactly (only meaningful when the run completed)
+          match o.final with
+          | some st =>
+            if st.orc.starved || !st.orc.us.isEmpty || !st.orc.ds.isEmpty then
+              diffs := diffs ++ [s!"{r.run.name}:oracle first=0"]
+          | none => pure ()
+        sigs := sigs ++ runSig r o
+        nev := nev + (match r.res with | .ok t => t.length | _ => 0)
+        models := models ++ [(r, o, t0)]
+      if diffs.isEmpty then
+        IO.println s!"case {c.id} {c.kind} ok runs={p.runs.length} events={nev}"
+      else
+        IO.println s!"case {c.id} {c.kind} DIFF {String.intercalate " ; " diffs}"
+      IO.println s!"sig {c.id} {String.intercalate "," (dedup sigs)}"
+      for (pid, msg) in simMonitors p.input (p.runs.map (·.1)) (p.runs.map (·.2)) do
+        IO.println s!"mon {pid} FAIL {c.id} {msg}"
 
 end Driver.SimRun
